@@ -76,6 +76,14 @@ func runC17(c *Ctx) {
 		if rng.Intn(3) == 0 {
 			sp.Faults = []fault{{Kind: []string{fCutMid, fLostAnswer, fPollFail, fFailPart}[rng.Intn(4)], Nth: 1 + rng.Intn(4), K: rng.Intn(3)}}
 		}
+		if rng.Intn(3) == 0 {
+			// a sender restart: what was confirmed before it (and is still in the outgoing
+			// directory, unchanged) is not picked up again by the scans of the new instance
+			sp.SenderCrashAt = []int{10 + rng.Intn(150)}
+			if rng.Intn(2) == 0 {
+				sp.Conf.Tags[0].Delete = false
+			}
+		}
 		dir := filepath.Join(c.Work, fmt.Sprintf("c17e-%d", idx))
 		c.Guard(idx, sp, func() {
 			bubble(c.T, func() { c17History(c, idx, rng.Int63(), sp, dir) })
